@@ -137,6 +137,8 @@ def length(e, st):
             hl = _HELPER_LEN(e, st)
             if hl is not None:
                 return hl
+        if nm == "filter" and len(e.args) == 2:
+            return lf_sym("flt<%s>" % digest(e))
         if nm == "enumerate" and e.args:
             return length(e.args[0], st)
         if nm == "islice" and len(e.args) == 2 and isinstance(e.args[0], ast.Call) and _call_name(e.args[0]) in ("cycle", "repeat", "count"):
@@ -152,6 +154,9 @@ def length(e, st):
             return length(e.func.value, st)
     if isinstance(e, (ast.ListComp, ast.GeneratorExp)) and len(e.generators) == 1 and not e.generators[0].ifs:
         return length(e.generators[0].iter, st)
+    if isinstance(e, (ast.ListComp, ast.GeneratorExp)) and len(e.generators) == 1 and e.generators[0].ifs:
+        # a filtered image: some elements can be dropped, so it is *known* not to be aligned with its source in general
+        return lf_sym("flt<%s>" % digest(e))
     if isinstance(e, ast.IfExp):
         a, b = length(e.body, st), length(e.orelse, st)
         if a == b:
@@ -276,27 +281,36 @@ def _rule_align_emit(prog, rep, tier):
             top = top._parent
         states = sym_exec(fn.node.body, State(), stop=top)
         bad = []
+        unresolved = []
         for st in states:
             la = lf_add(length(kw.get("args", ast.List(elts=[])), st), length(kw.get("posonlyargs", ast.List(elts=[])), st))
             ld = length(kw.get("defaults", ast.List(elts=[])), st)
             lk = length(kw.get("kwonlyargs", ast.List(elts=[])), st)
             lkd = length(kw.get("kw_defaults", ast.List(elts=[])), st)
+            problems = []
             if lk != lkd:
-                bad.append("len(kw_defaults) = %s but len(kwonlyargs) = %s" % (lf_str(lkd), lf_str(lk)))
-            for sym, c in ld.items():
-                if sym == "1":
-                    continue
-                if la.get(sym, 0) != c:
-                    bad.append("len(defaults) = %s is not the length of a tail of args (len(args) = %s): the defaults are not built one per "
-                               "argument from the same sequence, so they bind to the wrong (right-most) arguments" % (lf_str(ld), lf_str(la)))
-                    break
-            else:
-                if ld.get("1", 0) > la.get("1", 0) and not any(k != "1" for k in la):
-                    bad.append("more defaults (%s) than arguments (%s)" % (lf_str(ld), lf_str(la)))
+                problems.append((lk, lkd, "len(kw_defaults) = %s but len(kwonlyargs) = %s" % (lf_str(lkd), lf_str(lk))))
+            if any(sym != "1" and la.get(sym, 0) != c for sym, c in ld.items()):
+                problems.append((ld, la, "len(defaults) = %s is not the length of a tail of args (len(args) = %s): the defaults are not built one per "
+                                 "argument from the same sequence, so they bind to the wrong (right-most) arguments" % (lf_str(ld), lf_str(la))))
+            elif ld.get("1", 0) > la.get("1", 0) and not any(k != "1" for k in la):
+                problems.append((ld, la, "more defaults (%s) than arguments (%s)" % (lf_str(ld), lf_str(la))))
+            for x, y, msg in problems:
+                # the symbols that make the difference: for defaults-vs-args those of `defaults` that `args` lacks (args may
+                # have leading elements of its own), for kw_defaults-vs-kwonlyargs the whole difference
+                syms = [k_ for k_ in lf_add(x, y, -1) if k_ != "1"] if x is lk else [k_ for k_, c_ in x.items() if k_ != "1" and y.get(k_, 0) != c_]
+                # a filtered image is known to lose elements; a length the algebra cannot express (an opaque call) is not
+                # known to differ: that is an unresolved obligation, not a violation
+                if not any(k_.startswith("len<") for k_ in syms):
+                    bad.append(msg)
+                else:
+                    unresolved.append(msg)
         where = fn.qualname
         k = sum(1 for c in prog.all_calls() if enclosing_fn(c) is fn and prog.ext_name(c.func, c) == "ast.arguments" and (c.lineno, c.col_offset) <= (call.lineno, call.col_offset))
         if bad:
             rep.violation(Finding("ALIGN-emit", where, "arguments#%d" % k, "; ".join(sorted(set(bad))), loc(prog, call)))
+        elif unresolved:
+            rep.ob("ALIGN-emit", "%s arguments(...)#%d" % (where, k), "unresolved", loc(prog, call), unresolved[0])
         else:
             rep.holds("ALIGN-emit", "%s arguments(...)#%d over %d path(s)" % (where, k, len(states)), loc(prog, call),
                       "kw_defaults/kwonlyargs equal and defaults aligned with args as identities")
